@@ -51,7 +51,7 @@ cfg('cg-orders', '{#A=[$]=[#X][$],#B=[$]=[#Y]=[$],#C=[>][#Z]=[<]}', {'$1': 1, '$
     masses={'A': 1, 'B': 1, 'C': 1}, targets=(1, 2))
 cfg('cg-labels', '{#A=[>a][#X][<a][>b],#B=[<b][#Y][>a],#C=[<a][#Z]}', {'>a': 1, '<a': 1, '>b': 1, '<b': 1},
     masses={'A': 1, 'B': 1, 'C': 1}, targets=(1, 2, 3))
-cfg('cg-digit-labels', '{#A=[>1][#a][#b][<2],#B=[>2][#c][#d][<1],#C=[<1][#e]}', {'>1': 1, '<1': 1, '>2': 1, '<2': 1},
+cfg('cg-digit-labels', '{#A=[>1][#a][#b][<2],#B=[>2][#c][#d][<1],#C=[<1][#e]}', {'>11': 1, '<11': 1, '>21': 1, '<21': 1},
     masses={'A': 1, 'B': 1, 'C': 1}, targets=(1, 2, 3))
 cfg('cg-term-cap-only', '{#BB=[>][#B][<][>A],#SC=[<A][#S][>A][$A],#CAP=[$B][#T]}',
     {'<': 0.2, '>': 0.2, '>A': 0.5, '<A': 0.5, '$A': 0.5, '$B': 0.0}, masses={'BB': 2, 'SC': 1, 'CAP': 1},
